@@ -602,6 +602,7 @@ class ClientSession:
 
         timer = tm.timer()
         req: ClientRequest | None = None
+        resp: ClientResponse | None = None
         try:
             with timer:
                 # https://www.rfc-editor.org/rfc/rfc9112.html#name-retrying-requests
@@ -897,6 +898,10 @@ class ClientSession:
 
             if req is not None and req._body is not None:
                 await req._body.close()
+
+            if resp is not None:
+                # The caller never gets it: do not leave its connection acquired
+                resp.close()
 
             for trace in traces:
                 await trace.send_request_exception(
